@@ -333,7 +333,9 @@ def generated_codes(m):
 
 def fresh_text(text):
     """A new str/bytes object on every call (never an interned constant), dropped after the call."""
-    if isinstance(text, list):          # ['bytes', 'latin-1 text']
+    if isinstance(text, list):          # ['bytes', 'latin-1 text'] or ['bytearray', 'latin-1 text']
+        if text[0] == 'bytearray':
+            return bytearray(text[1].encode('latin-1'))
         return bytes(text[1].encode('latin-1'))
     return (text + ' ')[:-1] if text else ''.join([])
 
@@ -351,6 +353,13 @@ def _text_object(env, task, op, ctx=None):
         if ot is not None and _same_value(ot, op['text']):
             env.count('nested_call_on_the_text_object_of_the_enclosing_call')
             return ot
+    elif mode == 'refill':
+        # a mutable buffer: the caller overwrites the bytearray it passed to its previous call and parses it again
+        prev = env.last_text.get(tid)
+        if isinstance(prev, bytearray) and isinstance(op['text'], list):
+            prev[:] = op['text'][1].encode('latin-1')
+            text = prev
+            env.count('text_buffer_refilled_in_place')
     elif mode == 'prev':
         prev = env.last_text.get(tid)
         if prev is not None and _same_value(prev, op['text']):
@@ -374,7 +383,8 @@ def _text_object(env, task, op, ctx=None):
 
 def _same_value(obj, wire):
     if isinstance(wire, list):
-        return isinstance(obj, bytes) and obj == wire[1].encode('latin-1')
+        want = bytearray if wire[0] == 'bytearray' else bytes
+        return type(obj) is want and obj == wire[1].encode('latin-1')
     return isinstance(obj, str) and obj == wire
 
 
